@@ -1,9 +1,9 @@
 SPECIFICATION GSpec
 CONSTANTS
-  File <- FilesA
-  FDataSeq <- DataA
-  FOther <- OtherA
-  FSplit <- SplitA
+  File <- FilesJ
+  FDataSeq <- DataJ
+  FOther <- OtherJ
+  FSplit <- SplitJ
   Caps <- GenCaps
 VIEW FocusView
 INVARIANT EmitAll
